@@ -1,6 +1,7 @@
 package main
 
 import (
+	"fmt"
 	"math"
 	"sort"
 
@@ -35,6 +36,28 @@ func polyOut(md mode, p numerical.Polynomial) string {
 	return join("["+itoa(len(p))+"]", md.out(p...))
 }
 
+// preserved snapshots operand slices; the returned function reports (PropFail) when a call has written into one of
+// them.  Polynomial / Vec / BezierCurve are slices passed by reference; every method of the anchored code treats its
+// operands as values, and the models (pure functions) and theorems take that for granted — a curve or polynomial is
+// normally used many times.
+func preserved(c *hlib.Ctx, what string, operands ...[]float64) func() {
+	snaps := make([][]float64, len(operands))
+	for i, o := range operands {
+		snaps[i] = append([]float64(nil), o...)
+	}
+	return func() {
+		for i, o := range operands {
+			same := len(o) == len(snaps[i])
+			for j := 0; same && j < len(o); j++ {
+				same = o[j] == snaps[i][j] || (o[j] != o[j] && snaps[i][j] != snaps[i][j])
+			}
+			if !same {
+				c.PropFail(what+"/operand-modified", fmt.Sprintf("operand %d was %v, is %v after the call", i, snaps[i], o))
+			}
+		}
+	}
+}
+
 func runPolys(c *hlib.Ctx, n int) {
 	md := modeQ
 	for i := 0; i < n/2; i++ {
@@ -43,7 +66,10 @@ func runPolys(c *hlib.Ctx, n int) {
 		case "eval":
 			p := dyPoly(c, 7)
 			x := dy(c, 3, 3)
-			emit(c, md, "poly eval", join(polyArgs(md, p), md.num(x)), func() string { return md.out(p.Eval(x)) })
+			emit(c, md, "poly eval", join(polyArgs(md, p), md.num(x)), func() string {
+				defer preserved(c, "Polynomial.Eval", p)()
+				return md.out(p.Eval(x))
+			})
 		case "add":
 			p := dyPoly(c, 6)
 			q := dyPoly(c, 6)
@@ -56,23 +82,36 @@ func runPolys(c *hlib.Ctx, n int) {
 				}
 				c.Stat("c17.poly.add_cancel", 1)
 			}
-			emit(c, md, "poly add", join(polyArgs(md, p), polyArgs(md, q)), func() string { return polyOut(md, p.Add(q)) })
+			emit(c, md, "poly add", join(polyArgs(md, p), polyArgs(md, q)), func() string {
+				defer preserved(c, "Polynomial.Add", p, q)()
+				return polyOut(md, p.Add(q))
+			})
 		case "mul":
 			p := dyPoly(c, 5)
 			q := dyPoly(c, 5)
-			emit(c, md, "poly mul", join(polyArgs(md, p), polyArgs(md, q)), func() string { return polyOut(md, p.Mul(q)) })
+			emit(c, md, "poly mul", join(polyArgs(md, p), polyArgs(md, q)), func() string {
+				defer preserved(c, "Polynomial.Mul", p, q)()
+				return polyOut(md, p.Mul(q))
+			})
 		case "scale":
 			p := dyPoly(c, 6)
 			s := dy(c, 4, 3)
-			emit(c, md, "poly scale", join(polyArgs(md, p), md.num(s)), func() string { return polyOut(md, p.Scale(s)) })
+			emit(c, md, "poly scale", join(polyArgs(md, p), md.num(s)), func() string {
+				defer preserved(c, "Polynomial.Scale", p)()
+				return polyOut(md, p.Scale(s))
+			})
 		case "deriv":
 			p := dyPoly(c, 8)
-			emit(c, md, "poly deriv", polyArgs(md, p), func() string { return polyOut(md, p.Derivative()) })
+			emit(c, md, "poly deriv", polyArgs(md, p), func() string {
+				defer preserved(c, "Polynomial.Derivative", p)()
+				return polyOut(md, p.Derivative())
+			})
 		case "divroot":
 			p := dyPoly(c, 7)
 			r := dy(c, 2, 2)
 			emit(c, md, "poly divroot", join(polyArgs(md, p), md.num(r)), func() string {
-				return polyOut(md, numerical.VerifDivideRoot(append(numerical.Polynomial{}, p...), r))
+				defer preserved(c, "Polynomial.divideRoot", p)()
+				return polyOut(md, numerical.VerifDivideRoot(p, r))
 			})
 		case "divrootid":
 			// the defining equation on the real code: q := divideRoot(p, r); report q(y)*(y-r) + p(r) - p(y)  (must be 0)
@@ -83,13 +122,15 @@ func runPolys(c *hlib.Ctx, n int) {
 			r := dy(c, 2, 2)
 			y := dy(c, 2, 2)
 			emit(c, md, "poly divrootid", join(polyArgs(md, p), md.num(r), md.num(y)), func() string {
-				q := numerical.VerifDivideRoot(append(numerical.Polynomial{}, p...), r)
+				defer preserved(c, "Polynomial.divideRoot", p)()
+				q := numerical.VerifDivideRoot(p, r)
 				return md.out(q.Eval(y)*(y-r) + p.Eval(r) - p.Eval(y))
 			})
 		case "roots":
 			p := rootsPoly(c)
 			emit(c, md, "poly roots", polyArgs(md, p), func() string {
-				rs := append(numerical.Polynomial{}, p...).RealRoots()
+				defer preserved(c, "Polynomial.RealRoots", p)()
+				rs := p.RealRoots()
 				if len(rs) == 1 && math.IsNaN(rs[0]) {
 					return "all"
 				}
@@ -120,16 +161,27 @@ func rootsPoly(c *hlib.Ctx) numerical.Polynomial {
 	case 3:
 		// no real root: a(x-h)^2 + a*k, k > 0
 		h := dy(c, 3, 1)
+		if c.Rng.Intn(3) == 0 {
+			h = 0 // a*x^2 + c without real roots
+		}
 		k := float64(1 + c.Rng.Intn(4))
 		p = numerical.Polynomial{a*h*h + a*k, -2 * a * h, a}
 		c.Stat("c17.roots.quadratic_none", 1)
 	case 4:
 		h := dy(c, 3, 2)
+		if c.Rng.Intn(4) == 0 {
+			h = 0 // a*x^2: double root at the origin
+		}
 		p = numerical.Polynomial{a * h * h, -2 * a * h, a}
 		c.Stat("c17.roots.quadratic_double", 1)
 	default:
 		r1 := dy(c, 4, 2)
 		r2 := dy(c, 4, 2)
+		if c.Rng.Intn(3) == 0 {
+			// roots symmetric about the origin: the linear coefficient is exactly zero (a*x^2 + c)
+			r2 = -r1
+			c.Stat("c17.roots.quadratic_zero_linear_term", 1)
+		}
 		p = numerical.Polynomial{a * r1 * r2, -a * (r1 + r2), a}
 		c.Stat("c17.roots.quadratic_two", 1)
 	}
